@@ -176,11 +176,28 @@ KINDS = {
     'OrN': (None, 1, False), 'Bit': (1, 1, False), 'Range': (1, 1, False), 'Constant': (0, 1, False), 'Equal': (2, 1, False),
     'Comparator': (2, 3, False), 'Swap': (3, 2, False), 'ModuloCounter': (2, 2, True), 'Select': (None, 1, False),
     'Sign': (1, 1, False), 'TReg': (1, 1, True), 'Sub2': (2, 2, False),
+    # optional-port variants (every port a constructor can add)
+    'AddCo': (2, 2, False), 'AddCi': (3, 1, False), 'AddCiCo': (3, 2, False), 'Abs': (1, 1, False), 'AbsInv': (1, 2, False),
+    'TRegEnRst': (3, 1, True), 'Counter': (2, 1, True), 'RegRst': (2, 1, True), 'Nor3': (3, 1, False),
+    'Xor3': (3, 1, False),
+    # drawn with ScopeSymbol; only in the symbol-class stream (their constructors start a simulator)
+    'Scope': (None, 0, False), 'Waveform': (None, 0, False),
 }
-KIND_LIST = sorted(KINDS)
+BINOP3_KINDS = ('AddCi', 'AddCiCo')            # the class of the known finding C18-binop-third-pin
+SIM_KINDS = ('Scope', 'Waveform')
+KIND_LIST = sorted(k for k in KINDS if k not in SIM_KINDS)
 
 
-def random_plan(rng, n_nodes, profile=None):
+def out_width(kind, o, W):
+    """width of output o of a node of this kind when the data width is W"""
+    if kind in ('Equal', 'Comparator', 'Sign', 'TReg', 'TRegEnRst', 'Bit'):
+        return 1
+    if kind in ('ModuloCounter', 'AddCo', 'AddCiCo', 'AbsInv') and o == 1:
+        return 1
+    return W
+
+
+def random_plan(rng, n_nodes, profile=None, exclude=()):
     """profile: dict of probabilities (percent): fb = feedback edge from a later register, far = prefer old sources (long forward
     edges), self = register reading itself, dangle = leave an output unread, free = undriven input (outside the premise)"""
     pf = {'fb': 15, 'far': 30, 'self': 0, 'free': 0, 'fan': 30}
@@ -188,10 +205,12 @@ def random_plan(rng, n_nodes, profile=None):
     nin = rng.randint(0 if n_nodes > 0 else 1, 4)
     nodes = []
     for j in range(n_nodes):
-        k = rng.choice(KIND_LIST)
+        k = rng.choice([q for q in KIND_LIST if q not in exclude] if exclude else KIND_LIST)
         ni, no, isreg = KINDS[k]
         if ni is None:
             ni = rng.randint(1, 5) if k != 'Select' else 2 * rng.randint(1, 3)
+        if k in ('Nor3', 'Xor3'):
+            ni = rng.randint(2, 5)
         nodes.append({'k': k, 'ni': ni, 'no': no, 'ins': [], 'p': {'v': rng.randint(0, 7)}})
     regs_out = [j for j, nd in enumerate(nodes) if KINDS[nd['k']][2]]
     nfree = 0
@@ -250,6 +269,51 @@ def random_plan(rng, n_nodes, profile=None):
     return {'kind': 'plan', 'w': rng.choice([1, 2, 8, 8, 16]), 'nin': nin, 'nodes': nodes, 'outs': outs, 'nfree': nfree}
 
 
+# every logic class that has a symbol of its own, with the plan kinds that instantiate it — the last one is the variant with the
+# largest number of ports the constructor can give it
+CLASS_KINDS = {
+    'And2': ['And2'], 'And': ['AndN'], 'Not': ['Not'], 'Or2': ['Or2'], 'Or': ['OrN'], 'Nor2': ['Nor2'], 'Xor2': ['Xor2'],
+    'Add': ['Add', 'AddCo', 'AddCi', 'AddCiCo'], 'Sub': ['Sub'], 'Mul': ['Mul'], 'Reg': ['Reg', 'RegEn', 'RegRst', 'RegEnRst'],
+    'Scope': ['Scope'], 'Buf': ['Buf'], 'Bit': ['Bit'], 'Mux2': ['Mux2'], 'Range': ['Range'], 'Waveform': ['Waveform'],
+}
+# drawn with the generic InstanceSymbol: optional / multiple ports
+GENERIC_KINDS = ['Abs', 'AbsInv', 'TReg', 'TRegEnRst', 'Counter', 'ModuloCounter', 'Comparator', 'Swap', 'Select', 'Nor3', 'Xor3',
+                 'Nand2', 'Equal', 'Sign', 'Constant', 'Sub2']
+
+
+def single_kind_plans(kind):
+    """small deterministic blocks around ONE instance of this kind: every input from its own block input, every output to its own
+    block output (and read by a buffer), once plain and once one column further away (so that pass-through chains start on every pin)"""
+    ni, no, _ = KINDS[kind]
+    if ni is None:
+        ni = 5 if kind != 'Select' else 4
+    if kind in ('Nor3', 'Xor3'):
+        ni = 4
+    plans = []
+    for far in (0, 1):
+        nodes, ins = [], []
+        for i in range(ni):
+            if far and i % 2 == 0:
+                nodes.append({'k': 'Buf', 'ni': 1, 'no': 1, 'ins': [['in', i]], 'p': {'v': 0}})
+                ins.append(['n', len(nodes) - 1, 0])
+            else:
+                ins.append(['in', i])
+        j = len(nodes)
+        nodes.append({'k': kind, 'ni': ni, 'no': no, 'ins': ins, 'p': {'v': 1}})
+        outs = [['n', j, o] for o in range(no)]
+        if kind in SIM_KINDS:
+            # the monitor must be created last (its constructor builds the simulator): put the logic before it
+            nodes.insert(j, {'k': 'Not', 'ni': 1, 'no': 1, 'ins': [['in', 0]], 'p': {'v': 0}})
+            outs = [['n', j, 0]]
+        if far:
+            for o in range(no):
+                nodes.append({'k': 'Buf', 'ni': 1, 'no': 1, 'ins': [['n', j, o]], 'p': {'v': 0}})
+                nodes.append({'k': 'Not', 'ni': 1, 'no': 1, 'ins': [['n', len(nodes) - 1, 0]], 'p': {'v': 0}})
+                outs.append(['n', len(nodes) - 1, 0])
+        plans.append({'kind': 'plan', 'w': 1 if kind in ('TReg', 'TRegEnRst', 'Select') else 4, 'nin': max(ni, 1), 'nodes': nodes, 'outs': outs[:8], 'nfree': 0})
+    return plans
+
+
 class _Blk(Logic):
     def __init__(self, parent, name, plan, inw, outw):
         super().__init__(parent, name)
@@ -264,8 +328,7 @@ class _Blk(Logic):
         for j, nd in enumerate(nodes):
             for o in range(nd['no']):
                 key = ('n', j, o)
-                ww = 1 if (nd['k'] in ('Equal', 'Comparator', 'Sign', 'TReg') or (nd['k'] == 'ModuloCounter' and o == 1)
-                           or nd['k'] == 'Bit') else W
+                ww = out_width(nd['k'], o, W)
                 if key in outmap and outmap[key].getWidth() == ww:
                     nw[key] = outmap[key]
                 elif key in outmap:
@@ -325,6 +388,30 @@ class _Blk(Logic):
                 Select(self, nm, I[:h], I[h:], O[0])
             elif k == 'Sub2':
                 _Sub2(self, nm, I[0], I[1], O[0], O[1])
+            elif k == 'AddCo':
+                Add(self, nm, I[0], I[1], O[0], co=O[1])
+            elif k == 'AddCi':
+                Add(self, nm, I[0], I[1], O[0], ci=I[2])
+            elif k == 'AddCiCo':
+                Add(self, nm, I[0], I[1], O[0], ci=I[2], co=O[1])
+            elif k == 'Abs':
+                Abs(self, nm, I[0], O[0])
+            elif k == 'AbsInv':
+                Abs(self, nm, I[0], O[0], O[1])
+            elif k == 'TRegEnRst':
+                TReg(self, nm, I[0], O[0], enable=I[1], reset=I[2])
+            elif k == 'RegRst':
+                Reg(self, nm, I[0], O[0], reset=I[1])
+            elif k == 'Counter':
+                Counter(self, nm, I[0], I[1], O[0])
+            elif k == 'Nor3':
+                Nor(self, nm, I, O[0])
+            elif k == 'Xor3':
+                Xor(self, nm, I, O[0])
+            elif k == 'Scope':
+                py4hw.Scope(self, nm, I)
+            elif k == 'Waveform':
+                py4hw.Waveform(self, nm, I)
             else:
                 raise Unsupported(k)
 
@@ -359,8 +446,7 @@ def build(spec):
                 outw.append(inw[ref[1]])
             else:
                 nd = spec['nodes'][ref[1]]
-                ww = 1 if (nd['k'] in ('Equal', 'Comparator', 'Sign', 'TReg') or (nd['k'] == 'ModuloCounter' and ref[2] == 1)
-                           or nd['k'] == 'Bit') else W
+                ww = out_width(nd['k'], ref[2], W)
                 outw.append(hw.wire(f'out{i}', ww))
         return _Blk(hw, 'blk', spec, inw, outw)
     raise Unsupported(spec['kind'])
